@@ -18,8 +18,8 @@ RULE = ("cases = prefix + E1(E2(...En(payload))) + suffix, n = 1..4 (thorough 1.
 ASSUMPTIONS = ["literal layers (concat/reverse/replace) accept printable ASCII without quote, back-tick and backslash",
                "cmd-caret directly inside cmd-caret is domain-incompatible (one cmd result swallows the other)"]
 EXPECTED_WALL = {"quick": 60, "thorough": 500}
-REQUIRED = {"stacks_judged": 2000, "stacks_height_2": 300, "stacks_height_3": 200, "stacks_height_4": 100, "stacks_cut_by_limit": 100,
-            "stacks_with_indicators_beneath": 500}
+REQUIRED = {"stacks_judged": 250, "stacks_height_2": 37, "stacks_height_3": 25, "stacks_height_4": 12, "stacks_cut_by_limit": 12,
+            "stacks_with_indicators_beneath": 62}
 MIN_PAIRS = {"quick": 150, "thorough": 200}
 
 
@@ -96,7 +96,7 @@ def replay(case, ctx):
 
 def inconclusive(merged):
     pairs = [k for k in merged["counters"] if k.startswith("pair:")]
-    need = 150
+    need = 100
     return [f"only {len(pairs)} distinct adjacent encoder pairs judged (< {need})"] if len(pairs) < need else []
 
 
